@@ -16,6 +16,7 @@ import (
 	"reflect"
 	"sort"
 	"strings"
+	"sync"
 
 	"github.com/segmentio/encoding/json"
 )
@@ -248,7 +249,46 @@ func c10WideEncode(c *Ctx, k c10WideCase, v reflect.Value) {
 	}
 }
 
+// outputs around and above one and four MiB (a pooled buffer that grew that large is a candidate for special
+// treatment): once per process
+var c10HugeOnce sync.Once
+
+func c10Huge(c *Ctx) {
+	for _, n := range []int{1<<20 - 64, 1 << 20, 1<<20 + 64, 4<<20 + 1} {
+		pad := strings.Repeat("h", n)
+		for _, api := range []string{"json.Marshal", "json.Append", "Encoder.Encode"} {
+			x := []any{n, pad, "end"}
+			want, _ := stdjson.Marshal(x)
+			var out []byte
+			var err error
+			c.Eval(1)
+			switch api {
+			case "json.Marshal":
+				out, err = json.Marshal(x)
+			case "json.Append":
+				out, err = json.Append(nil, x, json.EscapeHTML|json.SortMapKeys)
+			default:
+				var w bytes.Buffer
+				err = json.NewEncoder(&w).Encode(x)
+				out = bytes.TrimSuffix(w.Bytes(), []byte("\n"))
+			}
+			for i := 0; i < 3; i++ {
+				c10Churn(n + i)
+			}
+			if err != nil || !bytes.Equal(out, want) {
+				i := 0
+				for i < len(out) && i < len(want) && out[i] == want[i] {
+					i++
+				}
+				c.Diverge("C10", api+"(output of "+fmt.Sprint(len(want))+" bytes)", "result unchanged by further library calls",
+					fmt.Sprintf("err=%v, first difference at offset %d of %d", err, i, len(out)), "", c10WideCase{API: api, Val: n})
+			}
+		}
+	}
+}
+
 func c10Wide(c *Ctx, shape *jShape) {
+	c10HugeOnce.Do(func() { c10Huge(c) })
 	t := jTypeOf(shape)
 	r := newRng(c.Seed, "c10wide"+shape.String())
 	docs := c10Docs(shape, c.Seed, r, c.Tier)
@@ -276,6 +316,9 @@ func c10Wide(c *Ctx, shape *jShape) {
 
 func c10WideReplay(c *Ctx, k c10WideCase) {
 	if k.Shape == nil {
+		if k.Val > 100000 {
+			c10Huge(c)
+		}
 		return
 	}
 	if k.Doc != "" || k.API == "Tokenizer" || k.API == "json.Valid" || strings.HasPrefix(k.API, "json.Parse") || k.API == "json.Unmarshal" {
